@@ -323,6 +323,11 @@ class C16(Check):
                     for usec in (0, 999999):
                         self._rec(acc, {'p'}, 'direct:TZ=' + tz, {'ud': {'sec': sec, 'usec': usec}})
                         self._rec(acc, set(KEYS), 'v3:TZ=' + tz, {'ud': {'sec': sec, 'usec': usec}})
+            # the daylight-saving word of the three time-zone fields is a small integer code, not a flag
+            for dt in (0, 1, 2, 3, 6):
+                for mw in (0, -720, 480):
+                    self._rec(acc, {'p'}, 'direct', {'utz': {'mw': mw, 'dt': dt}})
+                    self._rec(acc, {'lsutz', 'leutz'}, 'direct', {'lsutz': {'mw': mw, 'dt': dt}, 'leutz': {'mw': -mw, 'dt': 6 - dt}})
             for lt in LOG_TYPES:
                 self._rec(acc, {'lt'}, 'direct', {'lt': lt})
             self._rec(acc, {'bt', 'p'}, 'direct', {'bt': [{'iu': bytes([i % 256]) * 16, 'io': i} for i in range(300)]})
